@@ -50,6 +50,19 @@ S.Cell.schedule = _schedule_wrap
 
 _BASE_CACHE = {}
 
+# servers the master froze by itself (Master._check_pending_start), observed
+# at the method it shares with the admin's server_state events
+_FREEZES = []
+_orig_freeze = tm_master.Master._freeze_server
+
+
+def _freeze_wrap(self, servername, apps=None, *args, **kwargs):
+    _FREEZES.append((servername, list(apps or [])))
+    return _orig_freeze(self, servername, apps, *args, **kwargs)
+
+
+tm_master.Master._freeze_server = _freeze_wrap
+
 
 class StepCrash(Exception):
     """Marks the world as dead after an injected crash."""
@@ -465,6 +478,24 @@ class MasterWorld:
             self.master.tick_reboots()
         elif kind == 'noop':
             self.master.up_to_date = False
+        elif kind == 'run+':
+            # the node agent started the container: /running/<instance>
+            inst, host = self._startable(body[1])
+            node = self.tree.client()
+            zkutils.put(node, z.path.running(inst), host, ephemeral=True)
+        elif kind == 'chk':
+            # periodic task of Master.run_loop (every 30 s): instances that
+            # are placed but not running for _APP_START_INTERVAL make the
+            # master freeze their server and unschedule them
+            del _FREEZES[:]
+            self.master.check_integrity()
+            self.stats['integrity_checks'] += 1
+            for name, apps in _FREEZES:
+                self.stats['servers_frozen_by_master'] += 1
+                self.marked.update((name, a) for a in apps)
+                if self.truth.get(name) != 'down':
+                    self.truth[name] = 'frozen'
+            del _FREEZES[:]
         elif kind == 'restart':
             self.start_master(cycle=cyc)
             return
@@ -493,6 +524,32 @@ class MasterWorld:
         if cyc:
             self.cycle()
 
+    def _startable(self, idx):
+        """(instance, host) if instance `idx` is recorded under a present
+        server and not yet reported running, else None."""
+        live = self.live()
+        if idx >= len(live):
+            return None
+        inst = live[idx]
+        if inst in self.children(z.RUNNING):
+            return None
+        present = set(self.children(z.SERVER_PRESENCE))
+        for s in self.children(z.PLACEMENT):
+            if s in present and inst in self.children(z.path.placement(s)):
+                return inst, s
+        return None
+
+    def _sweep_running(self):
+        """A container whose placement record is gone (or whose node lost its
+        session) is not running any more: the node agent removes the
+        /running node (ephemeral of the node's session)."""
+        present = set(self.children(z.SERVER_PRESENCE))
+        for inst in self.children(z.RUNNING):
+            host = zkutils.get_default(self.admin, z.path.running(inst))
+            if host not in present or not self.admin.exists(
+                    z.path.placement(host, inst)):
+                self.admin.delete(z.path.running(inst))
+
     def _dup_target(self, idx, other):
         """(instance, server it is recorded under) if instance `idx` has
         exactly one record and it is not under `other`, else None."""
@@ -507,6 +564,10 @@ class MasterWorld:
         return inst, at[0]
 
     def _track_states(self, full=False):
+        self._sweep_running()
+        self._track_states_(full)
+
+    def _track_states_(self, full=False):
         """Harness-side truth about server states, independent of the model.
 
         Presence: when the master processes a presence notification it
@@ -755,6 +816,9 @@ class MasterWorld:
                     continue
                 if e[3] >= len(srv.apps):
                     continue
+            elif kind == 'run+':
+                if self._startable(e[1]) is None:
+                    continue
             elif kind == 'dup':
                 if self._dup_target(e[1], e[2]) is None or \
                         e[2] not in present:
@@ -768,7 +832,7 @@ class MasterWorld:
                                      or not cfg.get('allow_nocycle', True)):
                     continue
                 if cyc == 'L' and (not cfg.get('allow_late', False) or kind in (
-                        'noop', 'tick', 'restart', 'dup')):
+                        'noop', 'tick', 'restart', 'dup', 'run+', 'chk')):
                     continue
                 if cyc == 'L' and 'late_kinds' in cfg and \
                         kind not in cfg['late_kinds']:
@@ -849,6 +913,8 @@ class MasterWorld:
             tuple(sorted(ren(n) for n in self.children(z.FINISHED))),
             (tree.find(z.BLACKEDOUT_APPS).data
              if tree.find(z.BLACKEDOUT_APPS) else None),
+            tuple(sorted((ren(n), tree.find(z.path.running(n)).data)
+                         for n in self.children(z.RUNNING))),
         )
         m = self.master
         und = tuple((p, tuple(ren(k) if ('#' in k or k in ev_rank) else k
@@ -861,4 +927,9 @@ class MasterWorld:
                 cellworld.canon_cell(m.cell, self.tmpl_of, roots),
                 m.up_to_date,
                 tuple(sorted(m.servers)), tuple(m.apps_blacklist), CLOCK.L,
-                modstate.digest())
+                modstate.digest(),
+                tuple(sorted((ren(a), d['servername'], logical(d['since']))
+                             for a, d in m.pending_start.items())),
+                # marks that can still matter: the instance is on that server
+                tuple(sorted((s_, ren(a)) for s_, a in self.marked
+                             if s_ in m.servers and a in m.servers[s_].apps)))
